@@ -289,6 +289,23 @@ spec fn add_time(t: NaiveTime, d: int) -> (int, int) {
     let m = add_model(t, d);
     if m.0 { (t.secs as int, m.1 - t.secs as int * 1_000_000_000) } else { ((m.1 % DAYNS()) / 1_000_000_000, (m.1 % DAYNS()) % 1_000_000_000) }
 }
+// a position (whole seconds s, sub-second f) reduced modulo one day: only the seconds wrap
+proof fn pos_mod_day(s: int, f: int)
+    requires 0 <= f < 1_000_000_000
+    ensures (s * 1_000_000_000 + f) % DAYNS() == (s % 86400) * 1_000_000_000 + f,
+            (s * 1_000_000_000 + f) - (s * 1_000_000_000 + f) % DAYNS() == (s - s % 86400) * 1_000_000_000,
+            (s - s % 86400) % 86400 == 0
+{
+    let q = s / 86400; let r = s % 86400;
+    lemma_fundamental_div_mod(s, 86400);
+    assert(s * 1_000_000_000 + f == q * DAYNS() + (r * 1_000_000_000 + f)) by(nonlinear_arith) requires s == 86400 * q + r, DAYNS() == 86400 * 1_000_000_000int;
+    assert(0 <= r * 1_000_000_000 + f < DAYNS()) by(nonlinear_arith) requires 0 <= r < 86400, 0 <= f < 1_000_000_000, DAYNS() == 86400 * 1_000_000_000int;
+    lemma_fundamental_div_mod_converse(s * 1_000_000_000 + f, DAYNS(), q, r * 1_000_000_000 + f);
+    assert((s - r) == 86400 * q);
+    lemma_mod_multiples_basic(q, 86400);
+    assert((86400 * q) % 86400 == 0) by { lemma_mul_is_commutative(86400, q); }
+    assert((s - r) * 1_000_000_000 == q * DAYNS()) by(nonlinear_arith) requires s - r == 86400 * q, DAYNS() == 86400 * 1_000_000_000int;
+}
 // position on the joint line that contains the leap second of whichever operand is leap (C07 difference)
 spec fn jpos(x: NaiveTime, other: NaiveTime) -> int {
     tpos(x) + (if leap(other) && other.secs < x.secs { 1_000_000_000int } else { 0int })
